@@ -182,11 +182,12 @@ impl<const K: usize> AffTree<K> {
     /// behavior is either impossible (e.g., when all such paths are infeasible) or
     /// that this is indeed the intended effect.
     pub fn forward_if_redundant(&mut self, parent_idx: usize) -> Option<TreeNode<AffContent, K>> {
-        // check if parent_idx has exactly one child
+        // check if parent_idx has exactly one child that is not known to be infeasible
+        // (feasible, or still undecided: its siblings are empty, so the decision is redundant either way)
         let mut feasible_children = self
             .tree
             .children(parent_idx)
-            .filter(|child| child.target_value.state.is_feasible())
+            .filter(|child| !child.target_value.state.is_infeasible())
             .collect_vec();
 
         if feasible_children.len() != 1 {
